@@ -58,7 +58,7 @@ struct PidSim
         void *bfuzz = nullptr;
         bool alive = false;
     };
-    Unit U[3];
+    Unit U[4]; // 0 main, 1-2 restart replicas, 3 lock-step replica driven through the C++ member wrappers of the headers
     // second plain controller for the pos/inc lock-step pair
     a_pid *pair_inc = nullptr; bool pair_valid = false;
     // fuzzy tables (shared, harness blocks of exact size)
@@ -200,6 +200,26 @@ struct PidSim
         }
         if (mode == 0) { c.site("a_pid_neuro_run"); return a_pid_neuro_run(u.nr, set, fdb); }
         c.site("a_pid_neuro_inc"); return a_pid_neuro_inc(u.nr, set, fdb); // the neuron controller has no positional form
+    }
+    double step_members(Unit &u, double set, double fdb)
+    {
+        c.site("C++ member wrapper");
+        if (ctype == 0) return mode == 0 ? u.pid->run(set, fdb) : mode == 1 ? u.pid->pos(set, fdb) : u.pid->inc(set, fdb);
+        if (ctype == 1) return mode == 0 ? u.fz->run(set, fdb) : mode == 1 ? u.fz->pos(set, fdb) : u.fz->inc(set, fdb);
+        return mode == 0 ? u.nr->run(set, fdb) : u.nr->inc(set, fdb);
+    }
+    void configure_members(Unit &u)
+    {
+        a_pid *pd = P(u);
+        pd->summax = summax; pd->summin = summin; pd->outmax = outmax; pd->outmin = outmin;
+        c.site("C++ member wrapper");
+        if (ctype == 0) { u.pid->set_kpid(kp, ki, kd); u.pid->init(); }
+        else if (ctype == 1)
+        {
+            u.fz->set_opr(opr); u.fz->set_bfuzz(u.bfuzz, nfuzz); u.fz->set_rule(order, me, mec, mkp, mki, mkd); u.fz->set_kpid(kp, ki, kd); u.fz->init();
+            if (u.fz->bfuzz() != u.bfuzz || a_pid_fuzzy_bfuzz(u.fz) != u.bfuzz) c.fail("scratch-buffer-accessor-wrong", "a_pid_fuzzy_bfuzz", "the scratch-buffer accessor does not return the buffer that was installed");
+        }
+        else { u.nr->set_kpid(nk, kp, ki, kd); u.nr->set_wpid(wp, wi, wd); u.nr->init(); }
     }
     char const *step_name() const
     {
@@ -358,6 +378,12 @@ struct PidSim
                 if (bits_of(o2) != bits_of(out)) return c.fail("zero-is-not-a-restart", name, "a controller that was zeroed at the same instant (replica %d: %s) gives %.17g, the main controller %.17g", k, k == 1 ? "junk state then zero" : "documented init path", o2, out);
                 c.st.add("probe.restart_replica_steps");
             }
+        if (U[3].alive)
+        {
+            double const o3 = step_members(U[3], setp, delivered);
+            if (bits_of(o3) != bits_of(out)) return c.fail("cxx-wrapper-disagrees", name, "the controller driven through the C++ member functions gives %.17g, the C API %.17g on the same history", o3, out);
+            c.st.add("probe.cxx_member_replica_steps");
+        }
         // (5) positional / incremental lock step (plain controller, exact regime, constant gains)
         if (pair_valid && ctype == 0 && mode == 1)
         {
@@ -403,6 +429,7 @@ struct PidSim
         nk = value_of(regime, p.knob("nk", 520), 24); wp = value_of(regime, p.knob("wp", 520), 24); wi = value_of(regime, p.knob("wi", 516), 24); wd = value_of(regime, p.knob("wd", 514), 24);
         if (ctype == 1) build_tables();
         alloc_unit(U[0]); configure(U[0]); zero_unit(U[0]); // documented init path: parameters, then init (= zero)
+        alloc_unit(U[3]); configure_members(U[3]);
         bool const want_pair = ctype == 0 && regime == 0 && p.knob("pair", 0) != 0;
         if (want_pair)
         {
@@ -450,6 +477,7 @@ struct PidSim
                     else if (ctype == 1) { c.site("a_pid_fuzzy_set_kpid"); a_pid_fuzzy_set_kpid(U[k].fz, kp, ki, kd); }
                     else { c.site("a_pid_neuro_set_kpid"); a_pid_neuro_set_kpid(U[k].nr, nk, kp, ki, kd); }
                 }
+                if (U[3].alive) { if (ctype == 0) U[3].pid->set_kpid(kp, ki, kd); else if (ctype == 1) U[3].fz->set_kpid(kp, ki, kd); else U[3].nr->set_kpid(nk, kp, ki, kd); }
                 pair_valid = false; // the lock-step claim needs constant gains
                 c.st.add("fault.operator_retune");
                 break;
@@ -465,6 +493,7 @@ struct PidSim
             {
                 // restart at an arbitrary instant: the main controller and two replicas must be indistinguishable from now on
                 zero_unit(U[0]);
+                if (U[3].alive) { if (ctype == 0) U[3].pid->zero(); else if (ctype == 1) U[3].fz->zero(); else U[3].nr->zero(); }
                 for (int k = 1; k < 3; ++k) { free_unit(U[k]); alloc_unit(U[k]); configure(U[k]); }
                 if (ctype == 2) { a_pid_neuro_set_wpid(U[1].nr, U[0].nr->wp, U[0].nr->wi, U[0].nr->wd); a_pid_neuro_set_wpid(U[2].nr, U[0].nr->wp, U[0].nr->wi, U[0].nr->wd); }
                 junk_state(U[1], 3.25 + (double)(mag64(o.a[0]) % 97)); zero_unit(U[1]); // junk in every state field, then zero
@@ -484,10 +513,11 @@ struct PidSim
                     wp = value_of(regime, o.a[0], 24); wi = value_of(regime, o.a[1], 24); wd = value_of(regime, o.a[2], 24);
                     if ((mag64(o.a[3]) % 8) == 0) { wp = wi = wd = 0; c.st.add("probe.neuron_all_weights_zero"); }
                     for (int k = 0; k < 3; ++k) if (U[k].alive) { c.site("a_pid_neuro_set_wpid"); a_pid_neuro_set_wpid(U[k].nr, wp, wi, wd); }
+                    if (U[3].alive) U[3].nr->set_wpid(wp, wi, wd);
                 }
                 break;
             case P_OPR:
-                if (ctype == 1) { opr = (unsigned)(mag64(o.a[0]) % 7); for (int k = 0; k < 3; ++k) if (U[k].alive) { c.site("a_pid_fuzzy_set_opr"); a_pid_fuzzy_set_opr(U[k].fz, opr); } }
+                if (ctype == 1) { opr = (unsigned)(mag64(o.a[0]) % 7); for (int k = 0; k < 3; ++k) if (U[k].alive) { c.site("a_pid_fuzzy_set_opr"); a_pid_fuzzy_set_opr(U[k].fz, opr); } if (U[3].alive) U[3].fz->set_opr(opr); }
                 break;
             default: break;
             }
@@ -504,7 +534,7 @@ struct TfSim
     struct F { a_tf tf; double *in = nullptr, *out = nullptr; };
     unsigned nn = 1, dn = 0;
     double *num = nullptr, *den = nullptr;
-    F M, Y, L, D; // main, second input, linear combination, delayed
+    F M, Y, L, D, MM; // main, second input, linear combination, delayed, and one driven through the C++ members
     int la = 1, lb = 1; unsigned delay = 1;
     std::deque<double> dq;
     std::vector<long double> xs, ys, xs2, ys2; // histories since the last reset (reference)
@@ -549,6 +579,8 @@ struct TfSim
         dq.push_back(x);
         double xd = 0; if (dq.size() > delay) { xd = dq.front(); dq.pop_front(); }
         double const yd = a_tf_iter(&D.tf, xd);
+        double const ymm = MM.tf(x); // a_tf::operator()
+        if (bits_of(ymm) != bits_of(ym)) return c.fail("cxx-wrapper-disagrees", "a_tf_iter", "a_tf::operator() gives %.17g, a_tf_iter %.17g on the same history", ymm, ym);
         ++c.steps;
         long double const rm = ref_step(xs, ys, x), ry = ref_step(xs2, ys2, x2);
         if (exact && (fabsl(rm) >= 0x1p45L || fabsl(ry) >= 0x1p45L || !std::isfinite((double)rm))) { exact = false; c.st.add("probe.tf_left_exact_range"); }
@@ -570,7 +602,7 @@ struct TfSim
     void reset_all()
     {
         c.site("a_tf_zero");
-        a_tf_zero(&M.tf); a_tf_zero(&Y.tf); a_tf_zero(&L.tf); a_tf_zero(&D.tf);
+        a_tf_zero(&M.tf); a_tf_zero(&Y.tf); a_tf_zero(&L.tf); a_tf_zero(&D.tf); MM.tf.zero();
         dq.clear(); xs.clear(); ys.clear(); xs2.clear(); ys2.clear(); outM.clear(); exact = true;
         c.st.add("fault.reset_zero");
     }
@@ -586,6 +618,10 @@ struct TfSim
         if (nn == 0) c.st.add("probe.tf_numerator_order_zero");
         if (dn == 0) c.st.add("probe.tf_denominator_order_zero");
         mk(M); mk(Y); mk(L); mk(D);
+        MM.in = (double *)SA.halloc(nn * sizeof(double)); MM.out = (double *)SA.halloc(dn * sizeof(double));
+        for (unsigned i = 0; i < nn; ++i) MM.in[i] = 1.5;
+        for (unsigned i = 0; i < dn; ++i) MM.out[i] = -2.5;
+        MM.tf.set_num(nn, num, MM.in); MM.tf.set_den(dn, den, MM.out); // the two-call form of init
         for (size_t i = 0; i < p.ops.size() && c.ok(); ++i)
         {
             Op const &o = p.ops[i];
@@ -611,6 +647,7 @@ struct RcSim
     Ctx &c;
     explicit RcSim(Ctx &c_) : c(c_) {}
     a_lpf *lp = nullptr; a_hpf *hp = nullptr;
+    a_lpf lp2; a_hpf hp2; // driven through the C++ members of the headers
     int regime = 0; double alpha = 0.5;
     double lo = 0, hi = 0;       // hull of {0} U inputs so far (low-pass)
     long double rl = 0, rh = 0, rin = 0; // reference state, exact regime
@@ -621,6 +658,8 @@ struct RcSim
         double const pl = lp->output, ph = hp->output, pin = hp->input;
         c.site("a_lpf_iter"); double const ol = a_lpf_iter(lp, x);
         c.site("a_hpf_iter"); double const oh = a_hpf_iter(hp, x);
+        double const ol2 = lp2(x), oh2 = hp2(x);
+        if (bits_of(ol2) != bits_of(ol) || bits_of(oh2) != bits_of(oh)) return c.fail("cxx-wrapper-disagrees", "a_lpf_iter", "operator() of the C++ filter objects gives %.17g / %.17g, the C API %.17g / %.17g", ol2, oh2, ol, oh);
         ++c.steps; ++since_reset;
         if (x < lo) lo = x; if (x > hi) hi = x;
         if (!std::isfinite(ol) || !std::isfinite(oh)) return c.fail("state-not-finite", "a_lpf_iter", "filter output not finite");
@@ -649,6 +688,7 @@ struct RcSim
         alpha = a;
         c.site("a_lpf_init"); a_lpf_init(lp, a);
         c.site("a_hpf_init"); a_hpf_init(hp, a);
+        lp2.alpha = a; lp2.output = 123; lp2.zero(); hp2.alpha = a; hp2.output = 7; hp2.input = -9; hp2.zero();
         lo = hi = 0; rl = rh = rin = 0; since_reset = 0;
     }
     void exec(Plan const &p)
@@ -672,6 +712,7 @@ struct RcSim
             case F_INPUTS: { size_t n = 1 + (size_t)(mag64(o.a[2]) % 24); for (size_t k = 0; k < n && c.ok(); ++k) feed(inval(o.a[0] + (int64_t)k * 29, o.a[1])); break; }
             case F_ZERO:
                 c.site("a_lpf_zero"); a_lpf_zero(lp); c.site("a_hpf_zero"); a_hpf_zero(hp);
+                lp2.zero(); hp2.zero();
                 if (lp->output != 0 || hp->output != 0 || hp->input != 0 || lp->alpha != alpha || hp->alpha != alpha) { c.fail("zero-is-not-a-restart", "a_lpf_zero", "zeroing did not restore the initial state or touched the coefficient"); break; }
                 lo = hi = 0; rl = rh = rin = 0; since_reset = 0;
                 c.st.add("fault.reset_zero");
@@ -707,6 +748,7 @@ struct RcSim
                 double const fc = std::pow(10.0, (double)((int64_t)(mag64(o.a[0]) % 2401) - 1200) / 100.0), ts = std::pow(10.0, (double)((int64_t)(mag64(o.a[1]) % 2401) - 1200) / 100.0);
                 c.site("a_lpf_gen"); double const al = a_lpf_gen(fc, ts);
                 c.site("a_hpf_gen"); double const ah = a_hpf_gen(fc, ts);
+                { a_lpf tl; a_hpf th; tl.gen(fc, ts); th.gen(fc, ts); if (bits_of(tl.alpha) != bits_of(al) || bits_of(th.alpha) != bits_of(ah)) { c.fail("cxx-wrapper-disagrees", "a_lpf_gen", "gen() members and a_lpf_gen/a_hpf_gen disagree for fc=%g ts=%g", fc, ts); break; } }
                 if (!(al >= 0 && al <= 1)) { c.fail("coefficient-outside-unit-interval", "a_lpf_gen", "a_lpf_gen(%g, %g) = %.17g", fc, ts, al); break; }
                 if (!(ah >= 0 && ah <= 1)) { c.fail("coefficient-outside-unit-interval", "a_hpf_gen", "a_hpf_gen(%g, %g) = %.17g", fc, ts, ah); break; }
                 double const prod = fc * ts;
